@@ -833,7 +833,8 @@ def run_call(fixture, handle, method, variant, seed, keep=False):
         obs["locked_before"] = all(v is True for v in before.locks().values())
         f = getattr(h, method)
         old = signal.signal(signal.SIGALRM, _alarm)
-        signal.alarm(20)
+        signal.alarm(60)
+        outcome = "timeout"
         try:
             try:
                 r = f(*args, **kwargs)
@@ -842,11 +843,15 @@ def run_call(fixture, handle, method, variant, seed, keep=False):
                 if inspect.isgenerator(r):
                     for _i, _x in zip(range(3), r):
                         pass
+            except Timeout:
+                outcome = "timeout"
             except BaseException as e:  # noqa: BLE001
                 if isinstance(e, (KeyboardInterrupt, SystemExit)):
                     raise
                 outcome = exc_enum(e)
                 obs["exc"] = f"{type(e).__name__}: {e}"[:200]
+        except Timeout:
+            outcome = "timeout"      # the alarm went off while the exception of the call was being recorded
         finally:
             signal.alarm(0)
             signal.signal(signal.SIGALRM, old)
